@@ -20,7 +20,7 @@ def expected(rp, data, script):
         k, kind = script.split(":")
         k = int(k)
         if k < len(seq):
-            return seq[:k + 1], ("STOP" if kind == "S" else "CERR:script%d" % k), ref
+            return seq[:k + 1], ("STOP" if kind == "S" else "CERR:script%d" % k), ref   # E/P/Q: the consumer's own error comes back wrapped
     return seq, None, ref
 
 
@@ -69,7 +69,7 @@ def run(rep):
         streams_.append((0, "empty", b""))
         for n, desc, data in streams_:
             for k in range(0, n + 4):
-                for kind in ("S", "E"):
+                for kind in ("S", "E") + (("P", "Q") if (k + n) % 3 == 0 else ()):
                     script = "%d:%s" % (k, kind)
                     lines.append("parse %s %s" % (script, data.hex() or "-"))
                     meta.append((data, script, desc))
